@@ -168,7 +168,8 @@ func vC03MixCase(r *rand.Rand, s string) string {
 	return string(b)
 }
 
-var vC03LabelPool = []string{"a", "b", "ab", "www", "k", "s", "x-1", "A", "Zz", "a\\.b", "\\000", "\\255x", "\\@", "i", "mail", "a\\032b", "`", "{", "\\\\"}
+var vC03LabelPool = []string{"a", "b", "ab", "www", "k", "s", "x-1", "A", "Zz", "a\\.b", "\\000", "\\255x", "\\@", "i", "mail", "a\\032b", "`", "{", "\\\\",
+	"[", "]", "^", "_", "}", "~", "|", "host[0]", "a_b", "x^2", "\\127", "0", "-"}
 
 func vC03Universe(r *rand.Rand) []string {
 	// a small family of related names: a zone, children, grandchildren, a sibling zone, near-miss spellings
@@ -346,6 +347,48 @@ func (h *vC03Hist) randSpec() vC03Spec {
 	return vC03Spec{q: h.randQ(), cd: h.r.Intn(3) == 0, scope: vC03PickScope(h.r)}
 }
 
+// a name that differs from `name` in ONE octet by one bit (mostly the ASCII case bit 0x20 applied to
+// a non-letter, else a random bit), still in the decoder's canonical spelling and a different DNS name
+func vC03NearName(r *rand.Rand, name string) (string, bool) {
+	var pos []int
+	for i := 0; i < len(name); i++ {
+		c := name[i]
+		if c == '\\' {
+			if i+3 < len(name) && name[i+1] >= '0' && name[i+1] <= '9' {
+				i += 3
+			} else {
+				i++
+			}
+			continue
+		}
+		if c != '.' {
+			pos = append(pos, i)
+		}
+	}
+	for try := 0; try < 12 && len(pos) > 0; try++ {
+		i := pos[r.Intn(len(pos))]
+		bit := byte(0x20)
+		if r.Intn(3) == 0 {
+			bit = 1 << uint(r.Intn(7))
+		}
+		b := []byte(name)
+		b[i] ^= bit
+		n := string(b)
+		if vC03Lower(n) == vC03Lower(name) {
+			continue
+		}
+		w := vC03WireOf(n)
+		if w == nil {
+			continue
+		}
+		if back, _, err := dns.UnpackDomainName(w, 0); err != nil || back != n {
+			continue // not the canonical spelling of its own octets (a special or non-printable byte)
+		}
+		return n, true
+	}
+	return name, false
+}
+
 // change exactly one dimension of a spec
 func (h *vC03Hist) mutate(s vC03Spec) (vC03Spec, string) {
 	r := h.r
@@ -356,6 +399,12 @@ func (h *vC03Hist) mutate(s vC03Spec) (vC03Spec, string) {
 				s.q.name = pr[1] + s.q.name[len(pr[0]):]
 				return s, "confusable"
 			}
+		}
+	}
+	if r.Intn(3) == 0 {
+		if n, ok := vC03NearName(r, s.q.name); ok {
+			s.q.name = n
+			return s, "name"
 		}
 	}
 	switch r.Intn(7) {
@@ -833,6 +882,216 @@ func (h *vC03Hist) battery(key vC03Spec, kind string) {
 		h.cutWireAt(k)
 		h.cutAt(k)
 		h.serve(k, true, 0)
+	}
+}
+
+// ---- admission through the real write-back: a request misses, a scripted handler below the cache
+// answers through the cache's ResponseWriter.WriteMsg
+
+type vC03LoopQueryer struct{ tld string }
+
+// every sub-query is answered by an alias into a two-name loop
+func (q vC03LoopQueryer) Query(_ context.Context, req *dns.Msg) (*dns.Msg, error) {
+	m := new(dns.Msg)
+	m.SetReply(req)
+	name := req.Question[0].Name
+	target := "loop1." + q.tld
+	if vC03Lower(name) == vC03Lower(target) {
+		target = "loop2." + q.tld
+	}
+	m.Answer = []dns.RR{&dns.CNAME{Hdr: dns.RR_Header{Name: name, Rrtype: dns.TypeCNAME, Class: req.Question[0].Qclass, Ttl: 300}, Target: target}}
+	return m, nil
+}
+
+// kind: 0 answer (scopeBits = SCOPE the authority claims, 0 = global), 1 direct SERVFAIL,
+// 2 alias to the question itself, 3 alias into a loop (both end in SERVFAIL after the chase)
+func (h *vC03Hist) resolve(s vC03Spec, wireborn bool, client netip.Prefix, kind int, scopeBits int) {
+	r := h.r
+	w := vC03WireOf(s.q.name)
+	if w == nil {
+		return
+	}
+	req := vC03Req(s.q, s.cd)
+	if client.IsValid() || r.Intn(3) == 0 {
+		req.SetEdns0(1232, r.Intn(2) == 0)
+		if client.IsValid() {
+			fam := uint16(2)
+			if client.Addr().Is4() {
+				fam = 1
+			}
+			req.IsEdns0().Option = append(req.IsEdns0().Option, &dns.EDNS0_SUBNET{Code: dns.EDNS0SUBNET, Family: fam,
+				SourceNetmask: uint8(client.Bits()), Address: net.IP(client.Addr().AsSlice())})
+		}
+	}
+	var clientScope netip.Prefix
+	if client.IsValid() {
+		clientScope = client.Masked()
+	}
+	if kind == 0 && scopeBits > 0 && !client.IsValid() {
+		scopeBits = 0
+	}
+	id := h.nextID
+	if kind == 0 {
+		h.nextID++
+	} else {
+		id = h.failID(vC03FailKey(s.q.name, s.q.qtype, s.q.qclass, s.cd, clientScope))
+	}
+	reached := false
+	terminal := middleware.HandlerFunc(func(_ context.Context, ch *middleware.Chain) {
+		reached = true
+		rq := ch.Request.Msg()
+		resp := new(dns.Msg)
+		resp.SetReply(rq)
+		resp.RecursionAvailable = true
+		q := rq.Question[0]
+		switch kind {
+		case 0:
+			resp.Answer = []dns.RR{vC03Answer(vC03Q{name: q.Name, qtype: q.Qtype, qclass: q.Qclass}, id)}
+			if scopeBits > 0 {
+				if opt := rq.IsEdns0(); opt != nil {
+					for _, o := range opt.Option {
+						if sub, ok := o.(*dns.EDNS0_SUBNET); ok {
+							ro := new(dns.OPT)
+							ro.Hdr.Name, ro.Hdr.Rrtype = ".", dns.TypeOPT
+							ro.SetUDPSize(1232)
+							ro.Option = []dns.EDNS0{&dns.EDNS0_SUBNET{Code: dns.EDNS0SUBNET, Family: sub.Family,
+								SourceNetmask: sub.SourceNetmask, SourceScope: uint8(scopeBits), Address: sub.Address}}
+							resp.Extra = []dns.RR{ro}
+						}
+					}
+				}
+			}
+		case 1:
+			resp.Rcode = dns.RcodeServerFailure
+		case 2:
+			resp.Answer = []dns.RR{&dns.CNAME{Hdr: dns.RR_Header{Name: q.Name, Rrtype: dns.TypeCNAME, Class: q.Qclass, Ttl: 300}, Target: q.Name}}
+		case 3:
+			resp.Answer = []dns.RR{&dns.CNAME{Hdr: dns.RR_Header{Name: q.Name, Rrtype: dns.TypeCNAME, Class: q.Qclass, Ttl: 300}, Target: "loop1." + h.names[0]}}
+		}
+		_ = ch.Writer.WriteMsg(resp)
+		ch.Cancel()
+	})
+	writer := mock.NewWriter("udp", "192.0.2.7:53000")
+	ch := middleware.NewChain([]middleware.Handler{h.edns, h.c, terminal})
+	if wireborn {
+		raw, err := req.Pack()
+		wr := new(middleware.Request)
+		if err != nil || !wr.ParseWire(raw, time.Now(), nil) {
+			wireborn = false
+			ch.Reset(writer, req)
+		} else {
+			ch.ResetWire(writer, wr)
+			ch.AllowDirectPack()
+		}
+	} else {
+		ch.Reset(writer, req)
+	}
+	ch.Next(context.Background())
+	out := "BMiss"
+	if reached {
+		m := writer.Msg()
+		switch {
+		case !writer.Written() || m == nil:
+			h.failf("resolved request %v: the downstream response was not delivered", s)
+		case kind == 0 && m.Rcode != dns.RcodeSuccess, kind != 0 && m.Rcode != dns.RcodeServerFailure:
+			h.failf("resolved request %v (downstream kind %d) was answered rcode %d", s, kind, m.Rcode)
+		}
+		if kind == 0 {
+			sc := netip.Prefix{}
+			if clientScope.IsValid() && scopeBits > 0 && scopeBits <= clientScope.Addr().BitLen() {
+				sc, _ = clientScope.Addr().Prefix(min(scopeBits, clientScope.Bits()))
+			}
+			key := vC03Spec{q: s.q, cd: s.cd, scope: sc}
+			if e, ok := h.c.positive.Get(h.keyOf(key)); ok {
+				h.ptr[id] = e
+			} else {
+				h.failf("the answer written back for %v is not under %v", s, key)
+			}
+			h.stored = append(h.stored, vC03Stored{id: id, ident: key, key: key})
+		} else {
+			h.hot = append(h.hot, vC03Spec{q: s.q, cd: s.cd, scope: clientScope})
+		}
+	} else if writer.Written() {
+		out = h.classify(writer.Msg())
+	} else {
+		h.failf("request %v: nothing written and the next handler not reached", s)
+	}
+	d := fmt.Sprintf("(DFail %d)", id)
+	if kind == 0 {
+		d = fmt.Sprintf("(DAnswer %d %d)", scopeBits, id)
+	}
+	h.ops = append(h.ops, fmt.Sprintf("OpResolve %s %s %s %s %s %s %s", vC03Bool(wireborn), vC03Bytes(w), s.q.coq(), vC03Bool(s.cd), vC03Scope(client), d, out))
+	cl := "-"
+	if client.IsValid() {
+		cl = client.String()
+	}
+	h.desc = append(h.desc, fmt.Sprintf("resolve[%s] %v cd=%v ecs=%s downstream=%s -> %s",
+		map[bool]string{true: "wire", false: "msg"}[wireborn], s.q, s.cd, cl,
+		[]string{fmt.Sprintf("answer#%d scope/%d", id, scopeBits), fmt.Sprintf("SERVFAIL#%d", id), fmt.Sprintf("self-alias(SERVFAIL#%d)", id), fmt.Sprintf("alias-loop(SERVFAIL#%d)", id)}[kind], out))
+}
+
+// audiences of one history: no ECS, two subnets of one family, a host inside the first, another family
+func (h *vC03Hist) audience() netip.Prefix {
+	r := h.r
+	switch r.Intn(7) {
+	case 0, 1:
+		return netip.Prefix{}
+	case 2:
+		return netip.PrefixFrom(netip.MustParseAddr("10.1.2.77"), []int{16, 24, 24, 32}[r.Intn(4)])
+	case 3:
+		return netip.PrefixFrom(netip.MustParseAddr("10.1.3.9"), []int{16, 24, 24}[r.Intn(3)])
+	case 4:
+		return netip.PrefixFrom(netip.MustParseAddr("10.9.9.9"), []int{8, 16, 24}[r.Intn(3)])
+	case 5:
+		return netip.PrefixFrom(netip.MustParseAddr("2001:db8:1:2::9"), []int{32, 48, 56}[r.Intn(3)])
+	default:
+		return netip.PrefixFrom(netip.MustParseAddr("10.1.2.77"), 0)
+	}
+}
+
+func (h *vC03Hist) resolveHistory() {
+	r := h.r
+	h.c.SetQueryer(vC03LoopQueryer{tld: h.names[0]})
+	// two or three questions asked again and again by different audiences
+	var qs []vC03Spec
+	for i := 0; i < 2+r.Intn(2); i++ {
+		q := h.randQ()
+		if q.name == "." || strings.HasPrefix(vC03Lower(q.name), "loop") {
+			continue
+		}
+		q.qtype = []uint16{1, 1, 28}[r.Intn(3)]
+		qs = append(qs, vC03Spec{q: q, cd: r.Intn(4) == 0})
+	}
+	if len(qs) == 0 {
+		return
+	}
+	n := 7 + r.Intn(7)
+	for i := 0; i < n; i++ {
+		s := qs[r.Intn(len(qs))]
+		s.q.name = vC03MixCase(r, s.q.name)
+		if r.Intn(8) == 0 {
+			s.cd = !s.cd
+		}
+		client := h.audience()
+		switch x := r.Intn(10); {
+		case x < 5:
+			kind := []int{0, 0, 1, 1, 2, 3}[r.Intn(6)]
+			bits := 0
+			if client.IsValid() && r.Intn(3) != 0 {
+				bits = []int{8, 16, 24, 32, 48, 56}[r.Intn(6)]
+			}
+			h.resolve(s, r.Intn(2) == 0, client, kind, bits)
+		case x < 7:
+			// a probe that must not populate anything: if it misses, the downstream fails it for ITS audience
+			h.resolve(s, r.Intn(2) == 0, client, 1+r.Intn(3), 0)
+		case x < 8:
+			s.scope = client
+			h.failAt(s)
+		case x < 9:
+			h.failWireAt(s)
+		default:
+			h.lookupAt(s)
+		}
 	}
 }
 
@@ -1325,7 +1584,20 @@ func vC03History(r *rand.Rand) map[string]any {
 		return map[string]any{"inconclusive": true}
 	}
 	n := 8 + r.Intn(9)
-	flavour := r.Intn(5) // 0,1: answers; 2: + failures; 3: + cuts; 4: wire alias chase
+	flavour := r.Intn(6) // 0,1: answers; 2: + failures; 3: + cuts; 4: wire alias chase; 5: write-back through the pipeline
+	if flavour == 5 {
+		h.resolveHistory()
+		if h.incon {
+			return map[string]any{"inconclusive": true}
+		}
+		return map[string]any{
+			"k":          "hist-resolve",
+			"coq":        "CaseHist [" + strings.Join(h.ops, "; ") + "]",
+			"go_fail":    h.fail,
+			"nontrivial": len(h.failIDs) > 0 || h.hits > 0,
+			"desc":       h.desc,
+		}
+	}
 	if flavour == 4 {
 		for i := 0; i < 1+r.Intn(2); i++ {
 			h.chaseScenario()
